@@ -173,6 +173,7 @@ class Exec:
         self.stats = {'forks': 0, 'merges': 0}
         self.deref_hook = None   # (ex, st, Ptr) -> value: plain loads through pointers into a shared region
         self.store_hook = None   # (ex, st, Ptr, path, value): plain stores through such pointers
+        self.const_hooks = []    # [(regex, value)] named constants of std given by the check (e.g. Duration::MAX)
         self.frame_ty = {}       # frame id -> {generic parameter name: concrete type} (set when a dyn call is dispatched)
         self.no_merge = []       # regexes of callee names whose return paths are kept separate
 
@@ -365,6 +366,9 @@ class Exec:
             return UNIT if 'PhantomData' in s or 'ZeroSized' in s else Opaque('alloc:' + s[:40])
         if s.startswith('<') and s.endswith('>::NAN'):
             raise EngineError('NaN constant')
+        for rx, val in self.const_hooks:
+            if re.search(rx, s):
+                return val
         return self.const_named(s, st)
 
     def const_named(self, name, st):
